@@ -201,6 +201,18 @@ class C02(Prop):
             f = gen.struct_case(rng, src, ["prepare:" + rng.choice(["opt", "noopt"]), "exec:0"] +
                                 ["getvar:" + vlib.hx(v) for v in ("a", "b", "x")])
             out.append(Case("run", f, "random", nontrivial=any(w in src for w in ("if", "while", "foreach", "switch", "?"))))
+        # loops whose body calls a user-defined function that assigns to names the LOOP binds: the loop goes on with its own element,
+        # index and count (observed through the host-call sequence, the result and the variables left)
+        for src, val, trace in [
+            ("function clobber() { v = 99; i = 77; return 0; } n = 0; foreach i, v in [1, 2, 3] { clobber(); t(i, v); n = n + 1; } return [n, v, i];", [3, 99, 77], [[0, 1], [1, 2], [2, 3]]),
+            ("function show(x) { item = x * 10; t(\"item\", item); left = left - 1; return left; } left = 2; while (left > 0) { foreach idx, item in [1, 2, 3] { t(idx, item); r = show(item); } t(\"round\", left); } return left;",
+             -1, [[0, 1], ["item", 10], [1, 2], ["item", 20], [2, 3], ["item", 30], ["round", -1]]),
+            ("function z() { k = \"x\"; v = 0; return 1; } foreach k, v in {\"a\": 1, \"b\": 2} { z(); t(k, v); } return [k, v];", ["x", 0], [["a", 1], ["b", 2]]),
+            ("function w() { c = \"Z\"; return c; } s = \"\"; foreach c in \"ab\" { w(); s = s + c; t(c); } return s;", "ab", [["a"], ["b"]])]:
+            for mode in ("opt", "noopt"):
+                ops = ["addfn:%s:void" % vlib.hx("t"), "prepare:" + mode, "exec:0"]
+                exp = {"o2.class": "ok", "o2.value": enc_value(val), "o2.trace": "+".join("74(%s)" % ",".join(enc_value(a) for a in call) for call in trace)}
+                out.append(Case("run", {"script": vlib.hx(src), "objs": "N", "ops": ";".join(ops)}, "callee-assigns-loop-names", expect=exp, note=src))
         return out
 
 PROP = C02()
